@@ -549,6 +549,8 @@ def shard_pinwords(shard):
     part = Partial()
     for u in words:
         check_pinword(part, u, L)
+        if part.nviol:
+            break       # one report per shard (simplest pin word first) is enough to fail the run
     return part
 
 
